@@ -117,4 +117,15 @@ where
             (natStr (e - s)) (staticBody file sched isHead s (e - s) maxread)
     | none => .full clen (if isHead then [] else [file])
 
+/-- `int(stats.st_mtime)` from the nanosecond stamp of the file: `st_mtime` is the stamp in (float) seconds and `int()`
+truncates TOWARD ZERO, so a stamp half a second before the epoch and one half a second after it both read 0.
+(Exact as long as the float holds the fraction, which the harness's stamps - multiples of 1/4 s below 2^34 - do.) -/
+def mtimeSeconds (ns : Int) : Int :=
+  if ns ≥ 0 then ns / 1000000000 else -((-ns) / 1000000000)
+
+/-- `static_file` on a file whose modification time is given as `st_mtime_ns` -/
+def staticFileNs (file : Bytes) (sched : List Nat) (isHead : Bool) (rangeHdr : Option Str)
+    (ims : Option Int) (mtimeNs : Int) (maxread : Nat) : Resp :=
+  staticFile file sched isHead rangeHdr ims (mtimeSeconds mtimeNs) maxread
+
 end Ombott.Range
